@@ -9,7 +9,7 @@ from unittest import mock
 from cryptography.exceptions import InvalidTag
 from cryptography.hazmat.primitives.ciphers.aead import ChaCha20Poly1305
 
-from harness import simnet
+from harness import refacc, simnet
 from harness.common import Ctx, Driver, compare_with_model, hx, load_corpus
 
 import aiohomekit.controller.ble.pairing as blep
@@ -20,11 +20,13 @@ from aiohomekit.pdu import OpCode
 ID = "C06"
 RULE = ("per transport, EXHAUSTIVE event sequences to depth 5 (quick) / 6 (thorough) over {send n, deliver genuine next, replay of an earlier genuine message, a message with a future counter, "
         "a corrupted message, cancel/timeout} + random sequences to length 40; real ChaCha20-Poly1305 under one key, the harness plays the accessory and records every (nonce) the "
-        "controller seals with and every ciphertext that yields plaintext. non-trivial = distinct event sequence")
+        "controller seals with and every ciphertext that yields plaintext; BLE additionally over histories of 2..5 sessions (full pair-verify, honoured / ignored pair-resume, traffic, a failing last exchange, "
+        "responses recorded in the previous session) with real key agreement against a reference accessory. non-trivial = distinct event sequence")
 TRUSTED = ["cryptography ChaCha20Poly1305 as the accessory's cipher", "asyncio closes the transport when data_received raises (mimicked by the in-memory transport)"]
-ASSUMPTIONS = ["distinct pair-verify runs give distinct keys, so counters restarting at 0 in a new session reuse no (key, nonce) pair",
+ASSUMPTIONS = ["distinct pair-verify / pair-resume runs give distinct keys (HKDF of a fresh shared secret): on BLE this is observed, not assumed - the multi-session stream numbers key sets by their key bytes; "
+               "on IP and CoAP every connection runs a full pair-verify (C01 checks its keys against the accessory's)",
                "symbolic AEAD in the model: a ciphertext opens under exactly the counter it was sealed with"]
-EXPLANATION = "Lean theorems C06_* over counter automata (IP/BLE: all histories; CoAP: events all histories, responses partial + two counterexample theorems = known findings); differential tie on the real cipher wrappers"
+EXPLANATION = "Lean theorems C06_* over counter automata (IP/BLE: all histories, also across sessions; CoAP: events all histories, responses partial + two counterexample theorems = known findings); differential tie on the real cipher wrappers"
 
 KEY_A2C = bytes(range(32))
 KEY_C2A = bytes(range(32, 64))
@@ -205,10 +207,193 @@ def run_ble(loop, evs):
     return obs
 
 
+# ---------------------------------------------------------------- BLE over several sessions
+def run_ble_sessions(loop, evs, seed=0):
+    """one BlePairing over several sessions.  Events: ('Kr',) / ('Kf',) pair-verify against an accessory that honours /
+    ignores a resume request; then request/response pairs as in run_ble: ('s', n) followed by ('g', j) genuine response
+    of THIS session with counter j, ('o', j) a genuine response recorded in the PREVIOUS session, ('x',) corrupt, ('a',)
+    cancelled.  Observation: for every AEAD operation of the controller, (key set, counter) where key sets are numbered by
+    first appearance of their key bytes - a session that installs an old key again is seen as the old key set."""
+    import random as _r
+    rng = _r.Random(seed)
+
+    def rb(n):
+        return bytes(rng.randrange(256) for _ in range(n))
+    obs = []
+    keysets = []  # (c2a, a2c) in order of first appearance
+
+    def epoch(c2a, a2c):
+        k = (bytes(c2a), bytes(a2c))
+        if k not in keysets:
+            keysets.append(k)
+        return keysets.index(k) + 1  # the model's first pair-verify moves from epoch 0 (no keys) to 1
+    ident = refacc.Identity(rb)
+    acc = {"shared": None, "sid": None, "prev_a2c": None, "a2c": None, "c2a": None, "resumed": 0, "full": 0}
+
+    async def main():
+        p = blep.BlePairing.__new__(blep.BlePairing)
+        p._ble_request_lock = asyncio.Lock()
+        p.pairing_data = dict(ident.pairing_data(connection="BLE"), AccessoryAddress="AA")
+        p.id = "x"
+        p.device = None
+        p.description = None
+        p.ble_advertisement = None
+        p._session_id = None
+        p._derive = None
+        p._encryption_key = None
+        p._decryption_key = None
+        client = _BleClient([], obs)
+        p.client = client
+        honour = [True]
+
+        async def drive(cl, char, sm):
+            req, exp = sm.send(None)
+            d = {int(k): bytes(v) for k, v in req}
+            ios_pk = d[3]
+            resume_ok = False
+            if 0 in d and honour[0] and acc["shared"] is not None and d.get(14) == acc["sid"]:
+                # pair-resume, accessory side (HAP 5.8); a request that does not authenticate is treated as a plain M1
+                reqkey = refacc.hk(acc["shared"], ios_pk + d[14], b"Pair-Resume-Request-Info")
+                try:
+                    ChaCha20Poly1305(reqkey).decrypt(b"\0\0\0\0PR-Msg01", d[5], b"")
+                    resume_ok = True
+                except InvalidTag:
+                    pass
+            if resume_ok:
+                new_sid = rb(8)
+                respkey = refacc.hk(acc["shared"], ios_pk + new_sid, b"Pair-Resume-Response-Info")
+                tag = ChaCha20Poly1305(respkey).encrypt(b"\0\0\0\0PR-Msg02", b"", b"")
+                shared = refacc.hk(acc["shared"], ios_pk + new_sid, b"Pair-Resume-Shared-Secret-Info")
+                acc["resumed"] += 1
+                try:
+                    sm.send({6: bytearray(b"\x02"), 0: bytearray(b"\x06"), 14: bytearray(new_sid), 5: bytearray(tag)})
+                    raise AssertionError("resume not finished")
+                except StopIteration as st:
+                    acc["shared"], acc["sid"] = shared, new_sid
+                    return st.value
+            va = refacc.VerifyAccessory(ident, rb(32))
+            m2 = va.m2(ios_pk)
+            req3, _ = sm.send({k: bytearray(v) for k, v in m2})
+            assert va.check_m3([(k, bytes(v)) for k, v in req3])
+            acc["full"] += 1
+            try:
+                sm.send({6: bytearray(b"\x04")})
+                raise AssertionError("verify not finished")
+            except StopIteration as st:
+                acc["shared"] = va.shared
+                acc["sid"] = st.value[0]
+                return st.value
+
+        class Char:
+            iid = 5
+            type = "t"
+
+            class service:
+                type = "s"
+
+        def install_spies():
+            ek, dk = p._encryption_key, p._decryption_key
+            c2a = refacc.hk(acc["shared"], b"Control-Salt", b"Control-Write-Encryption-Key")
+            a2c = refacc.hk(acc["shared"], b"Control-Salt", b"Control-Read-Encryption-Key")
+            acc["prev_a2c"], acc["a2c"], acc["c2a"] = acc["a2c"], a2c, c2a
+            # which key bytes did the controller really install?  (probe without touching its counters)
+            probe = ek.key.encrypt(b"", struct.pack("<LQ", 0, 2 ** 63), b"probe")
+            ctl_c2a = next((k[0] for k in keysets + [(c2a, a2c)] if ChaCha20Poly1305(k[0]).encrypt(struct.pack("<LQ", 0, 2 ** 63), b"probe", b"") == probe), b"?" + probe)
+            ep = epoch(ctl_c2a, a2c if ctl_c2a == c2a else next((k[1] for k in keysets if k[0] == ctl_c2a), b"?"))
+            orig = ek.key.encrypt
+
+            def enc(aad, nonce, pt):
+                obs.append("%d:s%d" % (ep, struct.unpack("<LQ", nonce)[1]))
+                return orig(aad, nonce, pt)
+            ek.key.encrypt = enc
+            return ep
+        ep = None
+        i = 0
+        while i < len(evs):
+            ev = evs[i]
+            if ev[0] in ("Kr", "Kf"):
+                i += 1
+                honour[0] = ev[0] == "Kr"
+                client.is_connected = True  # the radio link is re-established before every pair-verify
+                p.client = client
+                with mock.patch.object(blep, "drive_pairing_state_machine", drive):
+                    await p._async_pair_verify()
+                ep = install_spies()
+                continue
+            if ev[0] != "s":
+                i += 1
+                continue
+            resp = evs[i + 1] if i + 1 < len(evs) else ("a",)
+            i += 2
+            if p._encryption_key is None:
+                continue  # the session is over; nothing is sent until the next pair-verify
+            n = ev[1]
+            body = b"b" * (max(n - 1, 0) * (64 - 16 - 2) + (64 - 16 - 7) if n > 1 else 1)
+            label = None
+            if resp[0] == "g":
+                client.script = [ChaCha20Poly1305(acc["a2c"]).encrypt(n_ip(resp[1]), struct.pack("<BBB", 2, 7, 0), b"")]
+                label = "%d:a%d" % (ep, resp[1])
+            elif resp[0] == "o" and acc["prev_a2c"] is not None:
+                client.script = [ChaCha20Poly1305(acc["prev_a2c"]).encrypt(n_ip(resp[1]), struct.pack("<BBB", 2, 7, 0), b"")]
+                label = "old:a%d" % resp[1]
+            elif resp[0] in ("x", "o"):
+                client.script = [bytes(3 + 16)]
+            else:
+                client.script = ["cancel"]
+            with mock.patch("aiohomekit.controller.ble.client.random.randrange", lambda a, b: 7):
+                try:
+                    async with p._ble_request_lock:
+                        await p._async_request_under_lock(OpCode.CHAR_WRITE, Char(), body)
+                    if label:
+                        obs.append(label)
+                except BaseException:  # noqa: BLE001
+                    obs.append("%d:c" % ep)
+    loop.run_until_complete(main())
+    run_ble_sessions.acc = acc
+    return obs
+
+
+def gen_sessions(rng, long_run=False):
+    """a history of 2..5 sessions; inside a session only the last exchange may fail (then nothing is sent until the
+    next pair-verify)"""
+    evs = []
+    for sidx in range(rng.randrange(2, 6 if long_run else 4)):
+        evs.append((rng.choice(["Kr", "Kr", "Kf"]),))
+        ctr = 0
+        for _ in range(rng.randrange(0, 4)):
+            evs.append(("s", rng.choice([1, 1, 2])))
+            r = rng.random()
+            if r < 0.7:
+                evs.append(("g", ctr))
+                ctr += 1
+            else:
+                evs.append(rng.choice([("x",), ("a",), ("g", ctr + 1), ("g", max(ctr - 1, 0)) if ctr else ("x",), ("o", 0), ("o", ctr)]))
+                break
+    return evs
+
+
+def analyse_sessions(obs):
+    out = []
+    sealed = [o for o in obs if ":s" in o]
+    if len(set(sealed)) != len(sealed):
+        dup = next(x for x in sealed if sealed.count(x) > 1)
+        out.append(("ble/nonce-reuse-across-sessions", f"ble: (key set, nonce) pairs sealed in order: {sealed} - {dup} was used twice (a later session installed the key of an earlier one)"))
+    acc = [o for o in obs if ":a" in o]
+    if any(o.startswith("old:") for o in acc):
+        out.append(("ble/accepts-earlier-session", f"ble: a response recorded in the previous session was accepted in a later one: {acc}"))
+    if len(set(acc)) != len(acc):
+        out.append(("ble/accept-twice-across-sessions", f"ble: accepted {acc}"))
+    return out
+
+
 # ---------------------------------------------------------------- CoAP
 def run_coap(loop, evs):
-    """('q',) request ; ('g', j) / ('x',) the response payload handed to _decrypt_response (after a request)"""
+    """('q',) request ; ('g', j) / ('x',) the response payload handed to _decrypt_response (after a request).
+    A request that is not followed by a response is cancelled by its caller while it waits (the session stays up).
+    run_coap.meta tells which acceptances needed the resynchronisation heuristics and where the counters were zeroed."""
     obs = []
+    meta = {"heur": set(), "zeroed": []}
+    run_coap.meta = meta
 
     async def main():
         class Resp:
@@ -222,7 +407,8 @@ def run_coap(loop, evs):
 
             def request(self, msg):
                 f = asyncio.get_event_loop().create_future()
-                f.set_result(Resp(self.next))
+                if self.next is not None:
+                    f.set_result(Resp(self.next))
 
                 class R:
                     response = f
@@ -239,6 +425,27 @@ def run_coap(loop, evs):
                 obs.append("s%d" % struct.unpack("=4xQ", nonce)[0])
                 return orig.encrypt(nonce, data, aad)
         ctx.send_ctx = Spy()
+        tries = [0]
+        orig_recv = ctx.recv_ctx
+
+        class RSpy:
+            def decrypt(self, nonce, data, aad):
+                tries[0] += 1
+                return orig_recv.decrypt(nonce, data, aad)
+        ctx.recv_ctx = RSpy()
+
+        async def response(coro):
+            tries[0] = 0
+            before = ctx.send_ctr
+            try:
+                out = await coro
+                if tries[0] > 1:
+                    meta["heur"].add(len(obs))
+                obs.append("a" + out[1:].decode())
+            except Exception:  # noqa: BLE001
+                obs.append("c")
+            if ctx.send_ctr < before:
+                meta["zeroed"].append(len(obs))
         i = 0
         while i < len(evs):
             ev = evs[i]
@@ -246,26 +453,28 @@ def run_coap(loop, evs):
             if ctx.coap_ctx is None:
                 break
             if ev[0] == "q":
-                # a request whose response is the next event if it is a response, else a genuine-less (corrupt) one is not fabricated: we encrypt only
                 if i < len(evs) and evs[i][0] in ("g", "x"):
                     r = evs[i]
                     i += 1
                     cc.next = ChaCha20Poly1305(KEY_A2C).encrypt(n_coap(r[1]), b"r%d" % r[1], b"") if r[0] == "g" else bytes(20)
+                    await response(ctx.post_bytes(b"req"))
+                else:
+                    # the request goes out, no response arrives, the caller is cancelled while it waits
+                    cc.next = None
+                    t = asyncio.ensure_future(ctx.post_bytes(b"req"))
+                    for _ in range(4):
+                        await asyncio.sleep(0)
+                    t.cancel()
                     try:
-                        out = await ctx.post_bytes(b"req")
-                        obs.append("a" + out[1:].decode())
+                        await t
+                    except asyncio.CancelledError:
+                        pass
                     except Exception:  # noqa: BLE001
                         obs.append("c")
-                else:
-                    ctx.encrypt(b"req")  # request sent, response lost
             else:
                 # an unsolicited response payload reaching _decrypt_response (e.g. a duplicate delivered by the network)
                 payload = ChaCha20Poly1305(KEY_A2C).encrypt(n_coap(ev[1]), b"r%d" % ev[1], b"") if ev[0] == "g" else bytes(20)
-                try:
-                    out = await ctx._decrypt_response(Resp(payload))
-                    obs.append("a" + out[1:].decode())
-                except Exception:  # noqa: BLE001
-                    obs.append("c")
+                await response(ctx._decrypt_response(Resp(payload)))
     loop.run_until_complete(main())
     return obs
 
@@ -287,33 +496,38 @@ def tok(ev):
     return ev[0] + (str(ev[1]) if len(ev) > 1 else "")
 
 
-def analyse(ctx, transport, evs, obs, case):
-    """property oracle on the implementation's observations; returns list of (signature, text)"""
-    sealed = [int(o[1:]) for o in obs if o.startswith("s")]
-    acc = [int(o[1:]) for o in obs if o.startswith("a")]
+def analyse(ctx, transport, evs, obs, case, meta=None):
+    """property oracle on the implementation's observations; returns list of (signature, text).
+    The two CoAP findings on record are identified by their mechanism (meta: the acceptance needed the
+    resynchronisation search / the counters were zeroed between the two uses of a nonce), so that any other way of
+    reusing a nonce or accepting a replay is reported under its own signature."""
+    meta = meta or {"heur": set(), "zeroed": []}
+    sealed = [(i, int(o[1:])) for i, o in enumerate(obs) if o.startswith("s")]
+    acc = [(i, int(o[1:])) for i, o in enumerate(obs) if o.startswith("a")]
     out = []
-    if len(set(sealed)) != len(sealed):
-        # which branch? CoAP reset
-        sig = f"{transport}/nonce-reuse"
-        if transport == "coap":
-            sig = "coap/reset-reuses-send-nonce"
-        out.append((sig, f"{transport}: nonces {sealed} sealed under one key"))
-    if acc != sorted(set(acc)) or (acc and acc != list(range(acc[0], acc[0] + len(acc))) and transport != "coap"):
-        sig = f"{transport}/accept-twice-or-out-of-order"
-        if transport == "coap":
-            # classify by the heuristic that must have fired
-            bad = None
-            hi = -1
-            for a in acc:
-                if a <= hi:
-                    bad = (a, hi)
-                    break
-                hi = a
-            if bad and bad[0] == 0 and bad[1] >= 6:
-                sig = "coap/reset-accepts-replay"
-            elif bad and bad[1] - bad[0] <= 5:
-                sig = "coap/rewind-accepts-replay"
-        out.append((sig, f"{transport}: accepted {acc} - a message was accepted twice or out of order"))
+    seen = {}
+    for i, n in sealed:
+        if n in seen:
+            sig = f"{transport}/nonce-reuse"
+            if transport == "coap" and any(seen[n] < z <= i for z in meta["zeroed"]):
+                sig = "coap/reset-reuses-send-nonce"
+            out.append((sig, f"{transport}: nonces {[x for _, x in sealed]} sealed under one key"))
+            break
+        seen[n] = i
+    hi = -1
+    first = None
+    for i, a in acc:
+        if a <= hi or (transport != "coap" and a != hi + 1):
+            sig = f"{transport}/accept-twice-or-out-of-order"
+            if transport == "coap" and i in meta["heur"]:
+                if a == 0 and hi >= 6:
+                    sig = "coap/reset-accepts-replay"
+                elif hi - a <= 5:
+                    sig = "coap/rewind-accepts-replay"
+            out.append((sig, f"{transport}: accepted {[x for _, x in acc]} - a message was accepted twice or out of order"))
+            break
+        hi = a
+        first = a if first is None else first
     return out
 
 
@@ -366,6 +580,28 @@ def run(ctx: Ctx, driver: Driver):
         # in the model a cancelled read is 'abort'
         lines.append("ctr.ipble " + " ".join(tok(e) for e in evs))
     compare_with_model(ctx, "ble", cases, outs, lines, driver, canon=canon_until_close)
+    # ------------- BLE over several sessions (pair-verify, pair-resume, traffic, failures)
+    cases, outs, lines = [], [], []
+    sess = [[("Kf",), ("s", 1), ("g", 0), ("Kr",), ("s", 1), ("g", 0)], [("Kf",), ("s", 2), ("g", 0), ("s", 1), ("g", 1), ("Kr",), ("s", 1), ("o", 0), ("Kr",), ("s", 1), ("g", 0)],
+            [("Kf",), ("Kr",), ("Kr",), ("s", 1), ("g", 0)], [("Kf",), ("s", 1), ("x",), ("Kr",), ("s", 1), ("g", 0), ("Kf",), ("s", 1), ("g", 0)]]
+    for k in range(ctx.budget(60, 1200)):
+        sess.append(gen_sessions(rng, long_run=k % 5 == 0))
+    nres = 0
+    for k, evs in enumerate(sess):
+        obs = run_ble_sessions(loop, evs, seed=ctx.seed * 100003 + k)
+        nres += run_ble_sessions.acc["resumed"]
+        ctx.evaluations += 1
+        case = {"stream": "ble-sessions", "events": [tok(e) for e in evs], "seed": ctx.seed * 100003 + k}
+        ctx.nontrivial.add(("ble-sessions", tuple(case["events"])))
+        for sig, text in analyse_sessions(obs):
+            ctx.violation(sig, text, case)
+        cases.append(case)
+        outs.append(" ".join(obs) or "-")
+        lines.append("ctr.sess " + " ".join(sess_tok(e) for e in evs))
+    ctx.dist["ble-sessions:resumed"] = nres
+    if nres == 0:
+        ctx.violation("ble/resume-never-happened", "no session of the BLE multi-session stream was resumed: the stream does not exercise pair-resume", cases[0])
+    compare_with_model(ctx, "ble-sessions", cases, outs, lines, driver, canon=canon_sessions)
     # ------------- CoAP
     cases, outs, lines = [], [], []
     calpha = [("q",), ("g", 0), ("g", 1), ("g", 2), ("x",)]
@@ -382,7 +618,7 @@ def run(ctx: Ctx, driver: Driver):
         ctx.evaluations += 1
         case = {"stream": "coap", "events": [tok(e) for e in evs]}
         ctx.nontrivial.add(("coap", tuple(case["events"])))
-        for sig, text in analyse(ctx, "coap", evs, obs, case):
+        for sig, text in analyse(ctx, "coap", evs, obs, case, run_coap.meta):
             ctx.violation(sig, text, case)
         cases.append(case)
         outs.append(" ".join(obs) or "-")
@@ -406,6 +642,29 @@ def run(ctx: Ctx, driver: Driver):
     loop.close()
 
 
+def sess_tok(e):
+    """model token of a session event: any pair-verify is a re-key; a response of an earlier session authenticates under
+    no counter of the current key set"""
+    if e[0] in ("Kr", "Kf"):
+        return "K"
+    if e[0] == "o":
+        return "x"
+    return tok(e)
+
+
+def canon_sessions(s):
+    """per key set: after its close nothing more is observed on the implementation (compare up to the close)"""
+    out, dead = [], set()
+    for t in s.split(" "):
+        k = t.split(":")[0]
+        if k in dead:
+            continue
+        out.append(t)
+        if t.endswith(":c"):
+            dead.add(k)
+    return " ".join(out)
+
+
 def canon_until_close(s):
     """after the session is closed the real code issues nothing more (new session = new keys); the model's machine keeps
     consuming the (now ineffective) events: compare up to and including the close"""
@@ -420,9 +679,13 @@ def replay(ctx, driver, c):
     asyncio.set_event_loop(loop)
     try:
         evs = [(e[0], int(e[1:])) if len(e) > 1 else (e,) for e in c["events"]]
+        if c["stream"] == "ble-sessions":
+            evs = [(e,) if e in ("Kr", "Kf", "x", "a") else (e[0], int(e[1:])) for e in c["events"]]
+            v = analyse_sessions(run_ble_sessions(loop, evs, seed=c.get("seed", 0)))
+            return v[0][1] if v else None
         fn = {"ip": run_ip, "ble": run_ble, "coap": run_coap}.get(c["stream"])
         obs = fn(loop, evs) if fn else run_coap_events(evs)
-        v = analyse(ctx, c["stream"], evs, obs, c)
+        v = analyse(ctx, c["stream"], evs, obs, c, run_coap.meta if c["stream"] == "coap" else None)
         return v[0][1] if v else None
     finally:
         loop.close()
